@@ -165,7 +165,12 @@ static void grad_case (long idx, vf_rng *r)
                   (unsigned)g.r1, (unsigned)g.r2, (unsigned)g.angle, st.repeat, sd, tk, (unsigned)tr.matrix[0][0], (unsigned)tr.matrix[0][1], (unsigned)tr.matrix[0][2], (unsigned)tr.matrix[1][0], (unsigned)tr.matrix[1][1], (unsigned)tr.matrix[1][2],
                   (unsigned)tr.matrix[2][0], (unsigned)tr.matrix[2][1], (unsigned)tr.matrix[2][2], sx, sy, wide ? "rgba_float" : "a8r8g8b8", w, h, degenerate ? " (degenerate)" : "");
     vf_inflight ("%s gradient repeat=%d stops=%d transform=%d dst=%s %dx%d%s", kn[g.kind], st.repeat, st.n, tk, wide ? "rgba_float" : "a8r8g8b8", w, h, degenerate ? " (degenerate)" : "");
-    pixman_image_composite32 (PIXMAN_OP_SRC, src, NULL, dst, sx, sy, 0, 0, 0, 0, w, h);
+    /* a third of the regular cases draw with OVER onto the non-blank destination: where the gradient is not defined (no admissible t) the
+     * destination must survive - a gradient wrongly taken for opaque would be drawn with SRC instead and wipe it */
+    int use_over = !degenerate && vf_chance (r, 1, 3);
+    if (use_over && wide) { float *fp = (float *)D.base; for (size_t i = 0; i < D.bytes / 4; i++) fp[i] = 0.5f; }      /* a representable background (the 0x5a filler is not a float in [0,1]) */
+    pixman_image_composite32 (use_over ? PIXMAN_OP_OVER : PIXMAN_OP_SRC, src, NULL, dst, sx, sy, 0, 0, 0, 0, w, h);
+    if (use_over) vf_count ("over_cases", 1);
     vf_count (degenerate ? "degenerate_gradients" : "regular_gradients", 1); if (touching) vf_count ("radial_touching_circles", 1); if (long_row) vf_count ("linear_long_rows", 1);
     vf_label ("kind_repeat_transform", "%s/%d/%d%s", kn[g.kind], st.repeat, tk, degenerate ? "/degenerate" : "");
     if (!degenerate && !strcmp (vf.prop, "C13")) {
@@ -205,6 +210,15 @@ static void grad_case (long idx, vf_rng *r)
                     }
                     else colour_hull (&st, (int64_t)floorl (tlo) - 4, (int64_t)ceill (thi) + 4, lo, hi);
                 }
+            }
+            if (use_over) {
+                /* only the pixels the gradient does not reach are judged: they keep the background */
+                if (some) { npx--; nskip++; continue; }
+                const float *fq = (const float *)vf_buf_row (&D, y) + 4 * x; int kept = wide ? (fq[0] == 0.5f && fq[1] == 0.5f && fq[2] == 0.5f && fq[3] == 0.5f) : vf_get_px (vf_buf_row (&D, y), 32, x) == 0x5a5a5a5au;
+                vf_count ("over_pixels_outside_the_gradient", 1);
+                if (!kept) { char key[96]; snprintf (key, sizeof key, "C13:%s:over-changes-pixel-where-no-admissible-t:%s", kn[g.kind], wide ? "wide" : "narrow");
+                    vf_violation (key, "pixel (%d,%d): OVER changed the destination although the gradient has no admissible t there (repeat %d)", x, y, st.repeat); bad = 1; break; }
+                continue;
             }
             double got[4];
             if (wide) { const float *p = (const float *)vf_buf_row (&D, y) + 4 * x; got[0] = p[3]; got[1] = p[0]; got[2] = p[1]; got[3] = p[2]; }
